@@ -39,6 +39,7 @@ typedef struct vthread {
 	bool           harness;
 	uint64_t       prio;
 	bool           joined;
+	long           stall_until; // VS_DELAY: not scheduled before this step while another thread can run
 } vthread;
 
 #define MAXT 256
@@ -50,7 +51,7 @@ static uint64_t          vnow = 1000000; // virtual milliseconds
 static volatile bool     enabled;
 static uint64_t          rng = 88172645463325252ull;
 static vs_cfg            C;
-static long              nsteps, nswitch, npreempt, clock_calls;
+static long              nsteps, nswitch, npreempt, clock_calls, ndelays;
 static long              cpoints[16];
 static int               ncp;
 static uint64_t          vstart;
@@ -207,6 +208,37 @@ schedule(bool preempt)
 				next = cand[rnd() % n];
 			}
 			break;
+		case VS_DELAY: {
+			// Delay injection: a running thread is now and then stalled for a long stretch (as if the OS had taken its
+			// CPU away) while everything else carries on; otherwise threads run until they block.  Several threads can
+			// be stalled at once, which reaches orderings that need two or three "slow" threads at the same time.
+			if (self->st == ST_RUN && preempt && (int) (rnd() % 1000) < C.pct) {
+				self->stall_until = nsteps + 10 + (long) (rnd() % (uint64_t) (C.horizon > 0 ? C.horizon : 300));
+				ndelays++;
+			}
+			vthread *free_[MAXT];
+			int      nf = 0;
+			for (int i = 0; i < n; i++) {
+				if (cand[i]->stall_until <= nsteps) {
+					free_[nf++] = cand[i];
+				}
+			}
+			if (nf == 0) {
+				// everyone runnable is stalled: release the one whose stall ends first
+				next = cand[0];
+				for (int i = 1; i < n; i++) {
+					if (cand[i]->stall_until < next->stall_until) {
+						next = cand[i];
+					}
+				}
+				next->stall_until = 0;
+			} else if (self->st == ST_RUN && self->stall_until <= nsteps) {
+				next = self;
+			} else {
+				next = free_[rnd() % (uint64_t) nf];
+			}
+			break;
+		}
 		case VS_PCT:
 			for (int i = 0; i < ncp; i++) {
 				if (cpoints[i] == nsteps && self->st == ST_RUN) {
@@ -497,7 +529,8 @@ new_vthread(void) // G held
 		t->id = nT++;
 		pthread_cond_init(&t->cv, NULL);
 	}
-	t->st       = ST_RUN;
+	t->st          = ST_RUN;
+	t->stall_until = 0;
 	t->obj      = NULL;
 	t->deadline = 0;
 	t->harness  = false;
